@@ -583,6 +583,50 @@ theorem splitEpoch_ends_with_reset : ∀ ops : List Op,
       · exact absurd h0 h
       · right; exact ⟨x :: pre, by simp [hp]⟩
 
+/-! ## callbacks that raise -/
+
+theorem stepCb_consistent (m : CbMode) (cfg : Cfg) (s : State) (op : Op) :
+    (∀ a b, Ev.change a b ∈ (stepCb m cfg s op).1.evs → Legal op a b) ∧
+    (op ≠ .reset → follow s.phase (stepCb m cfg s op).1.evs = some (stepCb m cfg s op).1.st.phase) ∧
+    (stepCb m cfg s op).1.lock = (step cfg s op).lock := by
+  cases m with
+  | ok => exact ⟨(legal_step cfg s op).1, (legal_step cfg s op).2, rfl⟩
+  | senescenceRaises => exact ⟨(legal_step cfg s op).1, (legal_step cfg s op).2, rfl⟩
+  | changeRaises =>
+    obtain ⟨ph, len, errs, ops, ren, rsn, st0, la, now⟩ := s
+    cases op <;> cases ph <;>
+      simp [stepCb, step, start, tick, recordError, heartbeat, checkTimeouts, renew, apoptosis, terminate, reset, started,
+        enterSenescence, Legal, follow] <;> (repeat' split) <;> simp_all [follow]
+
+/-- the state a raising callback leaves differs from the normal one at most in ways that keep the invariants:
+    it is `started s`, the normal state with the old reason, or the normal state -/
+theorem stepCb_state (m : CbMode) (cfg : Cfg) (s : State) (op : Op) :
+    (stepCb m cfg s op).1.st = (step cfg s op).st ∨
+    ((stepCb m cfg s op).1.st = started s ∧ s.phase = .nascent ∧ (∃ c, op = .tick c)) ∨
+    (stepCb m cfg s op).1.st = { (step cfg s op).st with reason := s.reason } := by
+  cases m with
+  | ok => left; rfl
+  | senescenceRaises => left; rfl
+  | changeRaises =>
+    simp only [stepCb]
+    split
+    · cases op <;> simp
+      rename_i c _ _ _ _
+      by_cases h : s.phase = .nascent <;> simp [h]
+    · left; rfl
+
+theorem stepCb_wf (m : CbMode) (cfg : Cfg) (s : State) (op : Op) (h : WF cfg s) : WF cfg (stepCb m cfg s op).1.st := by
+  rcases stepCb_state m cfg s op with e | ⟨e, _, _⟩ | e <;> rw [e]
+  · exact wf_step cfg s op h
+  · exact h
+  · exact wf_step cfg s op h
+
+theorem stepCb_timed (m : CbMode) (cfg : Cfg) (s : State) (op : Op) (h : Timed s) : Timed (stepCb m cfg s op).1.st := by
+  rcases stepCb_state m cfg s op with e | ⟨e, _, _⟩ | e <;> rw [e]
+  · exact timed_step cfg s op h
+  · simp [Timed, started]
+  · exact timed_step cfg s op h
+
 /-! ## several lifecycles alive at once -/
 
 theorem run_append (cfg : Cfg) : ∀ (a : List Op) (s : State) (b : List Op),
